@@ -110,3 +110,12 @@ Proof.
     destruct sg as [[]|]; f_equal; lia.
 Qed.
 
+
+Example example_literal :
+  let l := {| lneg := Some true; lint := [0; 1; 2]; lfrac := Some [5; 0]; lexp := Some (false, Some true, [3]) |} in
+  well_formed l /\ from_str (render l) = Ok (-1250) (-5).
+Proof.
+  cbv zeta. split; [|vm_compute; reflexivity].
+  unfold well_formed, digits_ok, fracd; cbn [lint lfrac lexp lneg].
+  repeat split; try (repeat constructor; lia); try discriminate; vm_compute; congruence.
+Qed.
